@@ -39,3 +39,13 @@ claim('C14', 'other',
       'and attribute-use pairs exhaustively over boundary catalogues.',
       'Trusted: the independent language matcher; words up to length 5. XSD 1.1 widening restrictions of the unchanged tree are listed in baseline/C14_instances.json.',
       'DESIGN.md 5/C14')
+
+claim('C02', 'other',
+      'Proved kernel + bounded: the 12 integer range validators are proved to accept exactly the XSD value ranges (all integers), the boolean '
+      'codec to decode exactly {true,false,1,0} and to round-trip; facet validators and first-match union / item-wise list decoding as listed in '
+      'the evidence. The built-in lexical spaces, whitespace normalisation, count_digits and derived restriction/list/union types are covered by '
+      'bounded run-time contracts through the real schema API against reference functions written from XSD Part 2 (boundary catalogue exhaustive, '
+      'seeded mutations), including decode value and decode(encode(decode(t))) = decode(t).',
+      'Trusted: reference lexical functions (bounded/C02.py), elementpath datatypes as a dependency (two of its defects are listed findings), '
+      'years beyond 9 digits and BCE leap days outside the deciding scope.',
+      'DESIGN.md 5/C02')
